@@ -30,3 +30,40 @@ def strings(U):
     """R1/R2 support: opaque string / log_enabled"""
     U.outside('pub fn vx_string() -> String { String::new() }\npub fn vx_log_enabled() -> bool { false }')
     U.add('pub assume_specification [vx_string] () -> (r: String);\npub assume_specification [vx_log_enabled] () -> (r: bool);')
+
+
+def time(U):
+    """opaque Time / Duration with the operators krill uses on them (results unconstrained: time is an input)"""
+    U.outside('''
+#[derive(Clone, Copy, PartialEq, PartialOrd)] pub struct Time(pub i64);
+#[derive(Clone, Copy, PartialEq, PartialOrd)] pub struct Duration(pub i64);
+impl std::ops::Add<Duration> for Time { type Output = Time; fn add(self, _d: Duration) -> Time { unimplemented!() } }
+impl std::ops::Sub<Duration> for Time { type Output = Time; fn sub(self, _d: Duration) -> Time { unimplemented!() } }
+impl Time { pub fn now() -> Time { unimplemented!() } }
+impl Duration { pub fn seconds(_s: i64) -> Duration { unimplemented!() } pub fn hours(_s: i64) -> Duration { unimplemented!() } }
+''')
+    U.add('''
+#[verifier::external_type_specification] #[verifier::external_body] pub struct ExTime(Time);
+#[verifier::external_type_specification] #[verifier::external_body] pub struct ExDuration(Duration);
+pub uninterp spec fn time_plus(t: Time, d: Duration) -> Time;
+pub uninterp spec fn time_minus(t: Time, d: Duration) -> Time;
+impl vstd::std_specs::ops::AddSpecImpl<Duration> for Time {
+    open spec fn obeys_add_spec() -> bool { true }
+    open spec fn add_req(self, rhs: Duration) -> bool { true }
+    open spec fn add_spec(self, rhs: Duration) -> Time { time_plus(self, rhs) }
+}
+impl vstd::std_specs::ops::SubSpecImpl<Duration> for Time {
+    open spec fn obeys_sub_spec() -> bool { true }
+    open spec fn sub_req(self, rhs: Duration) -> bool { true }
+    open spec fn sub_spec(self, rhs: Duration) -> Time { time_minus(self, rhs) }
+}
+pub assume_specification [<Time as std::ops::Add<Duration>>::add] (t: Time, d: Duration) -> (r: Time);
+pub assume_specification [<Time as std::ops::Sub<Duration>>::sub] (t: Time, d: Duration) -> (r: Time);
+pub assume_specification [<Time as PartialOrd>::partial_cmp] (a: &Time, b: &Time) -> (r: Option<std::cmp::Ordering>);
+pub assume_specification [<Duration as PartialOrd>::partial_cmp] (a: &Duration, b: &Duration) -> (r: Option<std::cmp::Ordering>);
+pub assume_specification [<Time as PartialEq>::eq] (a: &Time, b: &Time) -> (r: bool);
+pub assume_specification [<Duration as PartialEq>::eq] (a: &Duration, b: &Duration) -> (r: bool);
+pub assume_specification [Time::now] () -> (r: Time);
+pub assume_specification [Duration::seconds] (s: i64) -> (r: Duration);
+pub assume_specification [Duration::hours] (s: i64) -> (r: Duration);
+''')
